@@ -418,6 +418,33 @@ func validateArbitraryData(ms *MidState, txn types.Transaction) error {
 	return nil
 }
 
+// validCoveredFields reports whether every index in cf refers to an existing
+// element of the corresponding field of txn.
+func validCoveredFields(txn types.Transaction, cf types.CoveredFields) bool {
+	inRange := func(indices []uint64, n int) bool {
+		for _, i := range indices {
+			if i >= uint64(n) {
+				return false
+			}
+		}
+		return true
+	}
+	switch {
+	case !inRange(cf.SiacoinInputs, len(txn.SiacoinInputs)),
+		!inRange(cf.SiacoinOutputs, len(txn.SiacoinOutputs)),
+		!inRange(cf.FileContracts, len(txn.FileContracts)),
+		!inRange(cf.FileContractRevisions, len(txn.FileContractRevisions)),
+		!inRange(cf.StorageProofs, len(txn.StorageProofs)),
+		!inRange(cf.SiafundInputs, len(txn.SiafundInputs)),
+		!inRange(cf.SiafundOutputs, len(txn.SiafundOutputs)),
+		!inRange(cf.MinerFees, len(txn.MinerFees)),
+		!inRange(cf.ArbitraryData, len(txn.ArbitraryData)),
+		!inRange(cf.Signatures, len(txn.Signatures)):
+		return false
+	}
+	return true
+}
+
 func validateSignatures(ms *MidState, txn types.Transaction) error {
 	// build a map of all outstanding signatures
 	//
@@ -465,6 +492,8 @@ func validateSignatures(ms *MidState, txn types.Transaction) error {
 			return fmt.Errorf("signature %v is redundant", i)
 		} else if sig.Timelock > ms.base.childHeight() {
 			return fmt.Errorf("timelock of signature %v has not expired", i)
+		} else if !validCoveredFields(txn, sig.CoveredFields) {
+			return fmt.Errorf("signature %v covers nonexistent fields", i)
 		}
 		e.used[sig.PublicKeyIndex] = true
 		e.need--
